@@ -157,7 +157,9 @@ var keywordSet = func() map[string]bool {
 	return m
 }()
 
-var strPool = []string{"", "x", "hello world", "a;b", "say \"hi\"", "ünïcödé ✓", "  spaced  ", "SELECT * FROM t", "--", "/*c*/", "100%", "q;"}
+var strPool = []string{"", "x", "hello world", "a;b", "say \"hi\"", "ünïcödé ✓", "  spaced  ", "SELECT * FROM t", "--", "/*c*/", "100%", "q;",
+	// strings that spell a keyword, an operator or a literal: they are strings all the same
+	"true", "False", "NULL", "Max", "desc", "and", "or", ",", "*", "<=", "(", "select", "42", "1.5"}
 
 func (g *gen) lit() string {
 	switch g.r.Intn(4) {
@@ -760,6 +762,33 @@ func runSQL(cfg *config) {
 				id++
 				sqlTextCase(cfg, id, strings.Join(w, " "), "", "mutated")
 			}
+			// a span of words said twice (a repeated clause), in place or at the end
+			for k := 0; k < 4; k++ {
+				p := rr.Intn(len(g.w))
+				n := rr.Range(1, 4)
+				if p+n > len(g.w) {
+					n = len(g.w) - p
+				}
+				span := g.w[p : p+n]
+				var w []string
+				if rr.Bool() {
+					w = append(append(append([]string{}, g.w[:p+n]...), span...), g.w[p+n:]...)
+				} else {
+					w = append(append([]string{}, g.w...), span...)
+				}
+				id++
+				sqlTextCase(cfg, id, strings.Join(w, " "), "", "repeated")
+			}
+		}
+	}
+	// every trailing clause of a SELECT said twice, and every pair of them in both orders
+	clauses := []string{"WHERE a = 1", "GROUP BY a", "ORDER BY a", "ORDER BY a DESC", "LIMIT 1", "LIMIT 2", "OFFSET 1", "OFFSET 2", "JOIN u ON t.a = u.a"}
+	for _, c1 := range clauses {
+		for _, c2 := range clauses {
+			id++
+			sqlTextCase(cfg, id, "SELECT a FROM t "+c1+" "+c2, "", "clause-pairs")
+			id++
+			sqlTextCase(cfg, id, "SELECT a FROM t "+c1+" "+c2+" "+c1, "", "clause-pairs")
 		}
 	}
 	// a quoted literal or identifier that is never closed must be refused, never shortened
@@ -848,6 +877,19 @@ func sqlLiterals(cfg *config, id *int) {
 	for _, n := range []string{"9223372036854775808", "18446744073709551616", "99999999999999999999999999", "0x10", "1_0", "0b1", "0o7"} {
 		*id++
 		sqlTextCase(cfg, *id, "INSERT INTO t VALUES ("+n+")", "!err", "literal")
+	}
+	// every keyword and operator of the token table, quoted, in three spellings: a string literal
+	// and a delimited identifier keep their text whatever it spells
+	for _, tok := range sql.Tokens {
+		if tok == "" || strings.ContainsAny(tok, "'\"\\") {
+			continue
+		}
+		for _, t := range []string{tok, strings.ToLower(tok), strings.ToUpper(tok[:1]) + strings.ToLower(tok[1:])} {
+			*id++
+			sqlTextCase(cfg, *id, "INSERT INTO t (a) VALUES ('"+t+"')", fmt.Sprintf("(insert 74 (cols 61) (row (str %s)))", hxs(t)), "literal")
+			*id++
+			sqlTextCase(cfg, *id, "UPDATE t SET a = 1 WHERE b = '"+t+"'", "", "literal-keyword")
+		}
 	}
 	for i := 0; i < 300*cfg.scale; i++ {
 		rr := r.Fork()
